@@ -194,6 +194,18 @@ func genC07Script(rng *Rng, forceWrap bool) []c07call {
 		}
 		sc = append(sc, cl)
 	}
+	// a call right after a flood is a held one: the callee answers only after the caller has dropped the flood from its
+	// response channel (an immediate answer could find the channel still full and be dropped: a legitimate timeout,
+	// but one that depends on scheduling)
+	for i := 1; i < len(sc); i++ {
+		flooded := false
+		for _, a := range sc[i-1].after {
+			flooded = flooded || a == "flood"
+		}
+		if flooded && sc[i].resolve == "now" {
+			sc[i].hold, sc[i].resolve = true, "match"
+		}
+	}
 	if forceWrap || rng.Chance(1, 6) {
 		// call 1 is left unanswered (timeout), a later held call gets the same low id word; the late reply to call 1 arrives then
 		sc[0] = c07call{id: 1, hold: true, resolve: "none"}
@@ -363,6 +375,10 @@ func (w *c07world) run(sc []c07call, r *Result) {
 		w.mu.Lock()
 		_ = w.held[cl.id].ref
 		w.mu.Unlock()
+		// replies that piled up while the caller was idle are dropped one by one by its waitResponse loop; the model
+		// takes that as done when the call is under way: wait for it (a reply arriving before would find the channel
+		// full and be dropped, which the property allows — the call then times out — but the model does not follow)
+		waitUntil(2*time.Second, func() bool { return node.VerifResponseBacklog(k.Node, w.a) <= 0 })
 		firstRefID[cl.id] = node.VerifUniqID(k.Node) // the counter value behind this call's reference (worlds with a wrap run alone)
 		var got *res
 		takeResult := func(wait time.Duration) {
